@@ -96,6 +96,27 @@ CHECKS = {
    design="4 C03",
    note=COMMON_NOTE + "Known finding F4 (region predicate ambiguous_positions); fixed finding F4c. No whole-language theorem yet: the deciding evidence is the correspondence.",
    technique="Lean 4 (kernel-evaluated witnesses over the generated schema, scalar round-trip lemmas) + model/implementation correspondence on parse and on parse∘create"),
+ "C04": dict(
+   text="Lean theorems for every signature primitive: C04_appended (for an envelope without a COSE_Sign1, the output is the same tag over the same map with only the value of key 2 "
+        "replaced by the same wrapper list plus one element bstr .cbor #6.18([protected, {}, nil, sig]), sig = primitive applied to the Sig_structure of the envelope's own digest), "
+        "mapSet_present / mapSet_keys (all other members and the order kept), C04_protected (strict reading of the protected header gives {1: alg, 4: bstr .cbor keyId} for every "
+        "keyId in [-2^64, 2^64)), C04_verifies (under verify(sign m) m the appended signature verifies over the Sig_structure of the block's own header and the digest), "
+        "C04_rs_fixed / C04_rs_total (r||s is exactly 2w bytes and decodes to (r, s): leading zeros are the general case), C04_refused, C04_cose_ids. Tie: cmd_sign.main "
+        "with the real sign script and file KMS (calls recorded), 5 algorithms x key ids at CBOR widths; model output vs real bytes; Spec.checkSigned on the real output; "
+        "cryptographic verification (cryptography, pycryptodome) over the Sig_structure the spec builds; _create_cose_es_signature driven with chosen (r, s).",
+   design="4 C04",
+   note=COMMON_NOTE + "The signature schemes are parameters (hypothesis: verify pk m (sign sk m)); cbor2 load/dump modelled as dec/enc.",
+   technique="Lean 4 proof (parametric in the signature primitive) + correspondence with recorded KMS calls + cryptographic oracle"),
+ "C09": dict(
+   text="Lean theorems: C09_error, C09_skip (unchanged, KMS never consulted), C09_remove_old (a singly signed envelope ends with exactly the new block), C09_append, "
+        "C09_keymatch (complete 5x5 table), C09_omit_leaf, C09_key_required, C09_dependency_checked (absent / not bytes / not an envelope => refused), and by induction over "
+        "the configuration tree: signEnvelope_keeps, signDeps_keeps, C09_manifest_untouched (at every level the manifest and every integer-keyed member other than the "
+        "wrapper is the same value, so digests recorded by parents stay valid). Tie: the 5 x 3 x 2 x key-type single-level matrix and random dependency trees to depth 3 "
+        "with per-node keys / algorithms / omit-signing / actions and failing configurations, through cmd_sign.main; model vs real bytes; every level verified with that "
+        "node's public key; unnamed members compared byte-for-byte; no output file on failure.",
+   design="4 C09",
+   note=COMMON_NOTE + "Environment-variable defaults for the scripts are not modelled. Fixed findings F1, F6, F12.",
+   technique="Lean 4 proof (case analysis on actions, induction over the configuration tree) + correspondence + per-node cryptographic verification"),
 }
 
 NA_REASON = "check not yet built in this revision (work in progress; DESIGN.md section 4 describes the planned model and theorems)"
